@@ -152,7 +152,7 @@ def main(argv):
     if not ok:
         c.broken.append("build of repo working tree failed: " + blog[-800:])
         return c.finish(rule="build failed")
-    c.proofs()
+    c.proofs(only=["murmur"])
     from gen.fallback import shape_note
     note = shape_note("Src_murmur.v")
     if note:
